@@ -7,6 +7,12 @@ CHECKS = {
  "C11": dict(cat="model_checking", technique="exhaustive enumeration of the instruction space (256 opcode bytes x boundary operand product x every truncation) against an independent reference encoder, plus assemble∘disassemble on every corpus module",
              text="Every opcode byte, the full product of boundary operand patterns per slot and every truncation length are run through the real isa_encode/isa_decode and compared with an independent little-endian reference; the 162 undefined bytes (set taken from the isa.h enum, not the table under test) must be refused in 13 contexts; assemble(disassemble(m)) is compared function-by-function on ~220 compiler-produced modules. The space is finite and fully enumerated at both tiers.",
              note="asan+ubsan build of the tree; operand values outside the pattern pools and modules outside the corpus are not covered; clang sanitizers trusted", ref="DESIGN.md §4 C11"),
+ "C12": dict(cat="fault_enumeration", technique="exhaustive fault enumeration on the real loader: every body bit flip, every burst <=Lmax bits (all patterns) and 4 pattern families up to 32 bits at every offset, every truncation, 256 tails, every magic/version bit; subset replayed through nano_vm",
+             text="For each corpus .nvm file every enumerated damage is applied to an exact-size heap copy and given to the real nvm_deserialize (asan build) in the same process that first loaded the undamaged file; the loader must return NULL. The fault space per file is finite and completely enumerated (quick: Lmax=8, thorough: Lmax=12 and more files); ~400 damaged files per run also go through the real nano_vm binary, which must exit 1 with 'invalid .nvm format' and print nothing.",
+             note="bursts longer than Lmax are covered by four complete pattern families, not all patterns (the property says 'sampled patterns'); header fields other than magic/version are outside the property", ref="DESIGN.md §4 C12"),
+ "C10": dict(cat="model_checking", technique="exhaustive product of a structural module alphabet through the real nvm_serialize/nvm_deserialize with field-wise comparison, plus three-way differential execution (--run / nano_vm file / wrapper binary) of every corpus program",
+             text="561,600 modules (the full product of the structural alphabet: string sets incl. empty/trailing-empty, function-entry profiles with boundary field values, import entries with 0-3 params, debug entries, code lengths around 4096, all flag values, entry points) are built through the nvm_* API and must survive serialize->deserialize field-by-field with an idempotent serializer; every compiler-produced module of the corpus (~225) must be a byte fixpoint of load->serialize; every hand/generated corpus program is run in-process, from its .nvm file and from its native wrapper and the three (stdout, exit) observations must be equal.",
+             note="asan build for the codec part, plain build for the tools; exit statuses compared modulo 256; programs outside the corpus are not covered", ref="DESIGN.md §4 C10"),
 }
 NA_REASON = "check not built yet in this round (planned, see DESIGN.md §9); no claim is made"
 def main():
